@@ -4,6 +4,7 @@ from __future__ import annotations
 
 import ast
 
+from ..astutil import cond_terms, requires_flag, size_dependent
 from ..cfg import CFG
 from ..core import AnalysisError, const_value, walk_own
 from ..defuse import MUTATORS, DefUse, Terms, show, walk_term
@@ -427,19 +428,17 @@ def _empty_subset(ctx):
     # raises in the constructor that depend on the row count
     init = prog.func("mokapot.dataset.LinearPsmDataset.__init__")
     icfg = CFG(init.node)
+    iT = Terms(DefUse(prog, init))
     n_raises = 0
     for r in [n for n in ast.walk(init.node) if isinstance(n, ast.Raise)]:
-        gs = icfg.guards(r)
-        size_dep = [g for g in gs if any(
-            s in ast.unparse(g[0]) for s in ("shape[0]", "len(", "num_",
-                                             ".empty", ".size"))]
+        conds = cond_terms(icfg, iT, r)
+        size_dep = [c for c in conds if size_dependent(c[0])]
         if not size_dep:
             continue
         n_raises += 1
-        # polarity-aware: is the raise only reachable when enforce_checks?
-        under_flag = any(
-            ast.unparse(g[0]) == "enforce_checks" and g[1] for g in gs)
-        txt = ast.unparse(size_dep[-1][0])
+        # is the raise only reachable when enforce_checks is true?
+        under_flag = requires_flag(conds, "enforce_checks", True)
+        txt = show(size_dep[-1][0], 80)
         ctx.check(under_flag, "C05c-empty-subset-raises", init,
                   f"raise guarded by '{txt}' is disabled by "
                   "enforce_checks=False",
